@@ -53,6 +53,10 @@ pub fn run(seed: u64, tier: &str, out: &mut Out) {
                             let pb = ProgressBar::with_draw_target(Some(10), ProgressDrawTarget::term_like(Box::new(rec)));
                             pb.set_style(st); pb.set_position(3); pb.set_message(msg.clone()); pb.set_prefix(msg.clone());
                             for _ in 0..ticks { pb.tick(); }
+                            // the texts change shape between draws: tabs, and a tab width that shrinks and grows (whatever a draw remembered
+                            // about the previous text must not be used for the next)
+                            pb.set_message(format!("a\tb\t{}\t", msg)); pb.tick();
+                            for tw in [1usize, 0, 16, 3] { pb.set_tab_width(tw); pb.tick(); }
                             if finish { pb.finish(); } else { pb.tick(); }
                             std::mem::forget(pb);
                         }));
@@ -63,5 +67,36 @@ pub fn run(seed: u64, tier: &str, out: &mut Out) {
             }
         };
         out.emit(&case, &format!("{obs} ORACLE {verdict}"));
+    }
+}
+
+/// C14 with the crate feature `improved_unicode` (grapheme clusters): tick and progress strings made of characters
+/// that combine into fewer clusters than characters. Every accepted style must render; run by a second harness
+/// binary built with that feature (`check`: stream option `feature`).
+pub fn run_clusters(seed: u64, tier: &str, out: &mut Out) {
+    let mut rng = Rng::new(seed ^ 0x1414);
+    let n = if tier == "thorough" { 5_000 } else { 300 };
+    let pieces = ["e\u{301}", "\u{2699}\u{fe0f}", "a", "b", "日", "\u{1f468}\u{200d}\u{1f469}", "o\u{308}\u{304}"];
+    for _ in 0..n {
+        let k = rng.range(1, 4);
+        let tick: String = (0..k).map(|_| *rng.pick(&pieces)).collect();
+        let prog: String = (0..rng.range(1, 4)).map(|_| *rng.pick(&["a", "e\u{301}", "b", "o\u{308}"])).collect();
+        let which = rng.below(3);
+        let (t2, p2) = (tick.clone(), prog.clone());
+        let built = catch_unwind(move || { let s = ProgressStyle::with_template("{spinner} {bar:10} {msg}").unwrap(); match which { 0 => s.tick_chars(&t2), 1 => s.progress_chars(&p2), _ => s.tick_chars(&t2).progress_chars(&p2) } });
+        let verdict = match built {
+            Err(_) => "ok".to_string(),   // rejected by the builder's assertions: allowed
+            Ok(style) => {
+                let r = catch_unwind(AssertUnwindSafe(|| {
+                    let rec = Recorder::new(5, 40, false);
+                    let pb = ProgressBar::with_draw_target(Some(10), ProgressDrawTarget::term_like(Box::new(rec)));
+                    pb.set_style(style); pb.set_position(3);
+                    for _ in 0..5 { pb.tick(); }
+                    pb.finish();
+                }));
+                if r.is_err() { format!("FAIL accepted style panics in a draw (improved_unicode): tick_chars {tick:?} progress_chars {prog:?} variant {which}") } else { "ok".into() }
+            }
+        };
+        out.emit(&format!("NOMODEL CLUSTERS tick={tick:?} prog={prog:?} which={which}"), &format!(" ORACLE {verdict}"));
     }
 }
